@@ -71,6 +71,7 @@ func runRules(p *props.Prop, repo string, overlay map[string][]byte) (rep *core.
 			rep = c.Rep
 		}
 	}()
+	props.Prepare(c)
 	p.Run(c)
 	return c.Rep, nil
 }
